@@ -126,9 +126,32 @@ def Decl.glued : Decl → Bool
   | .arr i _ => i.glued
   | .arrN i => i.glued
 
+def Decl.isEmptyD : Decl → Bool
+  | .empty => true
+  | _ => false
+
+def Decl.isRef : Decl → Bool
+  | .ref _ => true
+  | _ => false
+
+/-- an abstract declarator (no name at its base) -/
+def Decl.abstr : Decl → Bool
+  | .empty => true
+  | .name _ => false
+  | .ptr _ i => i.abstr
+  | .ref i => i.abstr
+  | .arr i _ => i.abstr
+  | .arrN i => i.abstr
+
 def Decl.needsScope : Decl → Bool
   | .ptr _ _ => true
   | .ref _ => true
+  | _ => false
+
+/-- does the printed declarator start with `[`? (after `*` / `&` an attribute would be read there) -/
+def Decl.startsBracket : Decl → Bool
+  | .arr i _ => !i.needsScope && (i.isEmptyD || i.startsBracket)
+  | .arrN i => !i.needsScope && (i.isEmptyD || i.startsBracket)
   | _ => false
 
 mutual
